@@ -124,23 +124,34 @@ fn random_main(args: &[String]) {
                 break;
             }
             let evs = vharness::random::run_random(seed.wrapping_mul(1_000_003).wrapping_add(k as u64), k + 1, &profile, &dir);
-            results.lock().unwrap()[k] = Some(evs);
+            // spill to disk at once: a big-window scenario is hundreds of thousands of events
+            let part = dir.with_extension(format!("part{k}"));
+            {
+                let mut w = BufWriter::new(File::create(&part).expect("part file"));
+                for ev in &evs {
+                    serde_json::to_writer(&mut w, ev).unwrap();
+                    w.write_all(b"\n").unwrap();
+                }
+                w.flush().unwrap();
+            }
+            results.lock().unwrap()[k] = Some(vec![serde_json::json!({"part": part.to_string_lossy(), "n": evs.len()})]);
         }));
     }
     for h in handles {
         h.join().unwrap();
     }
-    let _ = std::fs::remove_dir_all(&base);
     let mut out = BufWriter::new(File::create(&args[2]).expect("trace file"));
     let results = results.lock().unwrap();
     let mut n = 0usize;
     for r in results.iter() {
-        for ev in r.as_ref().unwrap() {
-            serde_json::to_writer(&mut out, ev).unwrap();
-            out.write_all(b"\n").unwrap();
-            n += 1;
-        }
+        let meta = &r.as_ref().unwrap()[0];
+        let part = meta["part"].as_str().unwrap();
+        let mut f = File::open(part).expect("part");
+        std::io::copy(&mut f, &mut out).unwrap();
+        n += meta["n"].as_u64().unwrap() as usize;
+        let _ = std::fs::remove_file(part);
     }
     out.flush().unwrap();
+    let _ = std::fs::remove_dir_all(&base);
     println!("scenarios={} events={}", count, n);
 }
